@@ -47,7 +47,7 @@ def touched_pkgs(patch):
 def confirm(seed):
     meta = json.load(open(os.path.join(seed, "meta.json")))
     name = os.path.basename(seed.rstrip("/"))
-    wt = worktree(name)
+    wt = worktree("cf-" + name)
     res = {"seed": name, "property": meta.get("property")}
     try:
         rc, out = sh("git apply %s" % os.path.join(os.path.abspath(seed), "patch.diff"), cwd=wt)
